@@ -153,7 +153,7 @@ def from_mps(path, maximise=None):
     return Model(names, obj, rows, maximise, constant)
 
 
-def solve(model, cap_nodes=200_000, cap_solutions=4096):
+def _solve_whole(model, cap_nodes=200_000, cap_solutions=4096):
     """Returns dict(status='optimal'|'infeasible', value, solutions=[{name: 0/1}], nodes, truncated).
     All optimal solutions are enumerated (up to cap_solutions, `truncated` says so) in a canonical
     order (lexicographic on the assignment vector in model.names order, ones first)."""
@@ -309,6 +309,89 @@ def solve(model, cap_nodes=200_000, cap_solutions=4096):
         "truncated": state["truncated"],
         "onehot": use_onehot,
     }
+
+
+class ProductSolutions:
+    """All optimal solutions of a model that splits into independent components: the cartesian product
+    of the components' optimal solutions, indexed in mixed radix (component 0 is the slowest digit), never
+    materialised."""
+
+    def __init__(self, parts):
+        self.parts = parts  # list of lists of dicts
+        self.count = 1
+        for p in parts:
+            self.count *= len(p)
+
+    def __len__(self):
+        return self.count
+
+    def __getitem__(self, k):
+        if isinstance(k, slice):
+            return [self[i] for i in range(*k.indices(self.count))]
+        if k < 0:
+            k += self.count
+        if not 0 <= k < self.count:
+            raise IndexError(k)
+        out = {}
+        for p in reversed(self.parts):
+            k, d = divmod(k, len(p))
+            out.update(p[d])
+        return out
+
+    def __iter__(self):
+        for i in range(self.count):
+            yield self[i]
+
+
+def solve(model, cap_nodes=200_000, cap_solutions=4096):
+    """Decompose the model into independent components (variables linked by a shared row), solve each
+    exactly and return the product.  Same result dictionary as _solve_whole; `solutions` supports len()
+    and indexing without being materialised."""
+    names = model.names
+    parent = {v: v for v in names}
+
+    def find(x):
+        while parent[x] != x:
+            parent[x] = parent[parent[x]]
+            x = parent[x]
+        return x
+
+    for _, coefs, _, _ in model.rows:
+        vs = [v for v, k in coefs.items() if k != 0]
+        for a in vs[1:]:
+            ra, rb = find(vs[0]), find(a)
+            if ra != rb:
+                parent[rb] = ra
+    groups = {}
+    for v in names:
+        groups.setdefault(find(v), []).append(v)
+    if len(groups) <= 1:
+        return _solve_whole(model, cap_nodes, cap_solutions)
+    # constant rows (no variables) must hold by themselves
+    for _, coefs, sense, rhs in model.rows:
+        if not any(k != 0 for k in coefs.values()):
+            if (sense == 0 and rhs != 0) or (sense < 0 and 0 > rhs) or (sense > 0 and 0 < rhs):
+                return {"status": "infeasible", "value": None, "solutions": [], "nodes": 0, "truncated": False,
+                        "onehot": False}
+    parts = []
+    total = model.constant
+    nodes = 0
+    truncated = False
+    for root in sorted(groups, key=lambda r: names.index(groups[r][0])):
+        vs = groups[root]
+        vset = set(vs)
+        rows = [r for r in model.rows if any(k != 0 and v in vset for v, k in r[1].items())]
+        sub = Model(vs, {v: model.obj.get(v, 0) for v in vs}, rows, model.maximise, 0)
+        res = _solve_whole(sub, cap_nodes, cap_solutions)
+        nodes += res["nodes"]
+        if res["status"] != "optimal":
+            return {"status": "infeasible", "value": None, "solutions": [], "nodes": nodes, "truncated": False,
+                    "onehot": res.get("onehot", False)}
+        truncated = truncated or res["truncated"]
+        total += res["value"]
+        parts.append(res["solutions"])
+    return {"status": "optimal", "value": total, "solutions": ProductSolutions(parts), "nodes": nodes,
+            "truncated": truncated, "onehot": True, "components": len(parts)}
 
 
 def feasible_nonoptimal(model, result, rng_index):
